@@ -1,6 +1,8 @@
 package rules
 
 import (
+	"golang.org/x/tools/go/cfg"
+
 	"go/ast"
 	"go/token"
 	"go/types"
@@ -29,6 +31,14 @@ const ipf = "pkg/util/ipfilter"
 //	paths built with the server chain only                      → R-C05-3
 //	insert entries whose ParseCIDR failed                       → R-C05-5
 //	IPv4 mask for every single address                          → R-C05-5
+//
+// Robustness pass: the search rules follow helpers of the search (cached branch / cache lookup /
+// rule and path walks extracted, allowIP inlined as `f != nil && !f.Allow(ip)`), index loops, a
+// route or verdict passed through a local; IPFilters.Allow may walk a snapshot by index;
+// ipfilter.New may fill the rangers in a closure, a helper or after construction, by range or index
+// loop, with named results; constructors are resolved by signature. Mutants re-tried on refactored
+// forms: extracted cached branch without the chain test → R-C05-2; builder helper handing the
+// server chain to the paths → R-C05-3.
 func c05(c *core.Ctx) string {
 	c.Rule("R-C05-1", "decision table of IPFilter.Allow (exhaustive over parse ok / lookup errors / allowed / blocked): deny ⇔ (blocked ∧ ¬allowed) ∨ ((allowed ⇔ blocked) ∧ blockByDefault), default result on any parse/lookup error; IPFilters.Allow is the conjunction of its filters")
 	c.Rule("R-C05-2", "checks dominate dispatch: every uncached success return of the search has passed the server-, rule- and path-level filters; a failed test returns the 403 route immediately; a cached success route is returned only after its filter chain allowed the client (or the chain is nil)")
@@ -178,17 +188,29 @@ func c05Allow(c *core.Ctx) {
 	}
 	rows := map[string]string{}
 	ok := true
+	vfA := newMuxFlow([]*flow.Func{f})
 	for _, ex := range res.Exits {
-		if ex.Kind != flow.ExitReturn || ex.Return == nil || len(ex.Return.Results) != 1 {
+		if ex.Kind != flow.ExitReturn {
+			continue
+		}
+		r := muxRetExpr(f, vfA, ex)
+		if r == nil {
 			continue
 		}
 		st := ex.State
-		r := ast.Unparen(ex.Return.Results[0])
 		got := "?"
-		if id, isID := r.(*ast.Ident); isID && f.Info.Uses[id] == defObj {
+		if id, isID := r.(*ast.Ident); isID && (f.Info.Uses[id] == defObj || (muxIdentOf(vfA.through(id)) != nil && f.Info.Uses[muxIdentOf(vfA.through(id))] == defObj)) {
 			got = "default"
 		} else if tv, has := f.Info.Types[r]; has && tv.Value != nil {
 			got = tv.Value.ExactString()
+		} else if id, isID := r.(*ast.Ident); isID && st.Get(f.VarKey(id)) != flow.Unknown {
+			// a (named) result variable whose value is known on this path
+			got = map[bool]string{true: "true", false: "false"}[st.Is(f.VarKey(id), flow.True)]
+		}
+		if got == "?" {
+			c.Undecide("R-C05-1", cons+"|decision table", pos(c, ex.Ret()), "cannot resolve the verdict returned on this path")
+			ok = false
+			break
 		}
 		var want, row string
 		switch {
@@ -231,7 +253,7 @@ func c05Allow(c *core.Ctx) {
 		rows[row] = got
 		if got != want {
 			ok = false
-			c.Violate("R-C05-1", cons+"|decision table", pos(c, ex.Return),
+			c.Violate("R-C05-1", cons+"|decision table", pos(c, ex.Ret()),
 				sprintf("row [%s]: Allow returns %s, the property's table says %s", row, got, want), witness(st)...)
 		}
 	}
@@ -252,33 +274,45 @@ func c05Conj(c *core.Ctx) {
 		return
 	}
 	cons := fname(ipf, "IPFilters", "Allow")
-	filtersF := structField(c, ipf, "IPFilters", "filters")
-	var loop *ast.RangeStmt
-	ast.Inspect(f.Body, func(n ast.Node) bool {
-		if rs, ok := n.(*ast.RangeStmt); ok {
-			if sel, ok := ast.Unparen(rs.X).(*ast.SelectorExpr); ok {
-				if s := f.Info.Selections[sel]; s != nil && s.Obj() == filtersF {
-					loop = rs
-				}
+	var filtersF *types.Var
+	if n := namedType(c, ipf, "IPFilters"); n != nil {
+		ft := namedType(c, ipf, "IPFilter")
+		filtersF = muxOneField(n, "filters", func(v *types.Var) bool { return muxIsSliceOfPtrTo(v.Type(), ft) })
+	}
+	if filtersF == nil {
+		c.Errorf("R-C05-1: anchor: IPFilters has no []*IPFilter field")
+		return
+	}
+	fns := reach(f, 2)
+	vf := newMuxFlow(fns)
+	loops := vf.loopsOver(filtersF, "filters")
+	if len(loops) == 0 {
+		c.Violate("R-C05-1", cons+"|conjunction over all filters", pos(c, f.Body), "IPFilters.Allow does not loop over its filters")
+		return
+	}
+	if len(loops) > 1 {
+		c.Undecide("R-C05-1", cons+"|conjunction over all filters", pos(c, f.Body), "several loops over the filters")
+		return
+	}
+	loop := loops[0]
+	var allow []*ast.CallExpr
+	for _, call := range calls(loop.body(), false) {
+		if calleeIs(f, call, "(*"+ipf+".IPFilter).Allow") {
+			if sel, ok := ast.Unparen(call.Fun).(*ast.SelectorExpr); ok && loop.isElem(vf, sel.X) {
+				allow = append(allow, call)
 			}
 		}
-		return true
-	})
-	if loop == nil {
-		c.Violate("R-C05-1", cons+"|conjunction over all filters", pos(c, f.Body), "IPFilters.Allow does not range over its filters")
+	}
+	if len(allow) != 1 || !loop.ordered {
+		c.Violate("R-C05-1", cons+"|conjunction over all filters", pos(c, loop.stmt), "the loop does not consult each filter exactly once")
 		return
 	}
-	var allow []*ast.CallExpr
-	for _, call := range calls(loop.Body, false) {
-		if calleeIs(f, call, "(*"+ipf+".IPFilter).Allow") {
-			allow = append(allow, call)
-		}
+	// the single filter's verdict is an atom here (its table is R-C05-1's first half)
+	var opaque []types.Object
+	if fo, ok := f.Callee(allow[0]).(*types.Func); ok {
+		opaque = append(opaque, fo.Origin())
 	}
-	if len(allow) != 1 {
-		c.Violate("R-C05-1", cons+"|conjunction over all filters", pos(c, loop), "the loop does not consult each filter exactly once")
-		return
-	}
-	res := analyze(c, f, flow.Config{NoHavoc: true})
+	res := muxAnalyzeInl(c, f, flow.Config{NoHavoc: true, OnBlock: func(st *flow.State, b *cfg.Block) { loop.track(st, b) }}, opaque...)
 	if res == nil {
 		return
 	}
@@ -287,30 +321,39 @@ func c05Conj(c *core.Ctx) {
 	why := ""
 	sawT, sawF := false, false
 	for _, ex := range res.Exits {
-		if ex.Return == nil || len(ex.Return.Results) != 1 {
+		r := muxRetExpr(f, vf, ex)
+		if r == nil {
 			continue
 		}
-		tv := f.Info.Types[ex.Return.Results[0]]
-		if tv.Value == nil {
+		tv := f.Info.Types[r]
+		val, known := false, false
+		switch {
+		case tv.Value != nil:
+			val, known = tv.Value.ExactString() == "true", true
+		case muxIdentOf(r) != nil && ex.State.Get(f.VarKey(r)) != flow.Unknown:
+			val, known = ex.State.Is(f.VarKey(r), flow.True), true
+		case ast.Unparen(r) == ast.Expr(allow[0]) && ex.State.Get(k) != flow.Unknown:
+			val, known = ex.State.Is(k, flow.True), true
+		}
+		if !known {
 			bad, why = ex.State, "a non-constant verdict is returned"
 			continue
 		}
-		v := tv.Value.ExactString() == "true"
-		in := contains(loop, ex.Return)
+		in := loop.current(ex.State)
 		switch {
-		case v && in:
+		case val && in:
 			bad, why = ex.State, "true is returned before all filters were consulted (a later filter that denies the client is skipped)"
-		case v && !in:
+		case val && !in:
 			sawT = true
 			if ex.State.Is(k, flow.False) {
 				bad, why = ex.State, "true is returned although a filter denied the client"
 			}
-		case !v && in:
+		case !val && in:
 			sawF = true
 			if !ex.State.Is(k, flow.False) {
 				bad, why = ex.State, "false is returned although the current filter allowed the client"
 			}
-		case !v && !in:
+		case !val && !in:
 			bad, why = ex.State, "false is returned after all filters allowed the client"
 		}
 	}
@@ -318,15 +361,15 @@ func c05Conj(c *core.Ctx) {
 		c.Violate("R-C05-1", cons+"|conjunction over all filters", pos(c, f.Body), "the chain cannot both allow and deny")
 		return
 	}
-	c.Check(bad == nil, "R-C05-1", cons+"|conjunction over all filters", pos(c, loop), "false at the first denying filter, true only after the loop", why, witness(bad)...)
+	c.Check(bad == nil, "R-C05-1", cons+"|conjunction over all filters", pos(c, loop.stmt), "false at the first denying filter, true only after the loop", why, witness(bad)...)
 }
 
 func c05Search(c *core.Ctx, s *searchInfo) {
-	f := s.f
 	success, forb := 0, 0
 	var bad *flow.State
 	why := ""
 	var badAt ast.Node
+	levels := []string{"server", "rule", "path"}
 	for _, ex := range s.res.Exits {
 		if ex.Kind != flow.ExitReturn || ex.Return == nil {
 			continue
@@ -335,11 +378,11 @@ func c05Search(c *core.Ctx, s *searchInfo) {
 		if st.Is(evHit, flow.True) {
 			continue
 		}
-		if s.successReturn(ex.Return) {
+		if s.successReturn(ex) {
 			success++
-			for _, lv := range []string{"server", "rule", "path"} {
-				if s.val(st, s.allow[lv]) != flow.True {
-					bad, why, badAt = st, "a success route is returned without the "+lv+"-level IP filter having allowed the client", ex.Return
+			for _, lv := range levels {
+				if s.allowed(st, lv) != flow.True {
+					bad, why, badAt = st, "a success route is returned without the "+lv+"-level IP filter having allowed the client", ex.Ret()
 				}
 			}
 			continue
@@ -347,13 +390,13 @@ func c05Search(c *core.Ctx, s *searchInfo) {
 		if s.returnedCode(ex) == "403" {
 			forb++
 			denied := false
-			for _, lv := range []string{"server", "rule", "path"} {
-				if s.val(st, s.allow[lv]) == flow.False {
+			for _, lv := range levels {
+				if s.allowed(st, lv) == flow.False {
 					denied = true
 				}
 			}
 			if !denied {
-				bad, why, badAt = st, "the 403 route is returned although no IP filter denied the client (an allowed client must be routed as if no filter existed)", ex.Return
+				bad, why, badAt = st, "the 403 route is returned although no IP filter denied the client (an allowed client must be routed as if no filter existed)", ex.Ret()
 			}
 		}
 	}
@@ -372,11 +415,11 @@ func c05Search(c *core.Ctx, s *searchInfo) {
 			if st.Is(evHit, flow.True) {
 				continue
 			}
-			for _, lv := range []string{"server", "rule", "path"} {
-				if s.val(st, s.allow[lv]) == flow.False {
+			for _, lv := range levels {
+				if s.allowed(st, lv) == flow.False {
 					// allowed only at a return statement of the 403 route
 					if rs, ok := n.(*ast.ReturnStmt); ok && len(rs.Results) == 1 {
-						if id, ok := ast.Unparen(rs.Results[0]).(*ast.Ident); ok && s.routeCodes[f.Info.Uses[id]] == "403" {
+						if s.codeByFact(st, rs.Results[0]) == "403" || s.routeExprKind(rs.Results[0], false) == "403" {
 							continue
 						}
 					}
@@ -385,53 +428,30 @@ func c05Search(c *core.Ctx, s *searchInfo) {
 			}
 		}
 	}
-	c.Check(leak == nil, "R-C05-2", s.cons+"|a denying filter ends the search with 403", pos(c, s.outer),
+	c.Check(leak == nil, "R-C05-2", s.cons+"|a denying filter ends the search with 403", pos(c, s.outer.stmt),
 		"no statement other than `return forbidden` is reachable once a filter denied the client", "the search continues after an IP filter denied the client", witness(leak)...)
 
 	// hit path
-	var chainKeys []string
-	for _, ca := range s.chainAllow {
-		chainKeys = append(chainKeys, f.CallKey(ca))
-	}
 	var badHit *flow.State
 	whyHit := ""
 	hits := 0
 	for _, ex := range s.res.Exits {
-		if ex.Kind != flow.ExitReturn || ex.Return == nil || !ex.State.Is(evHit, flow.True) || len(ex.Return.Results) != 1 {
+		if ex.Kind != flow.ExitReturn || ex.Return == nil || !ex.State.Is(evHit, flow.True) {
 			continue
 		}
 		st := ex.State
-		id, _ := ast.Unparen(ex.Return.Results[0]).(*ast.Ident)
-		if id == nil {
-			continue
-		}
-		if f.Info.Uses[id] == s.getVar {
-			if st.Is("eq:"+f.Render(id)+".code==0", flow.False) {
+		switch s.exitKind(ex) {
+		case "cached":
+			if s.cachedCodeZero(st) == flow.False {
 				continue
 			}
 			hits++
-			okc := false
-			for _, k := range chainKeys {
-				if st.Is(k, flow.True) {
-					okc = true
-				}
-			}
-			for _, ca := range s.chainAllow {
-				if sel, ok := ast.Unparen(ca.Fun).(*ast.SelectorExpr); ok && st.Is(f.NilKey(sel.X), flow.True) {
-					okc = true
-				}
-			}
-			if !okc {
+			if passed, _ := s.chainPassed(st); !passed {
 				badHit, whyHit = st, "a cached success route is returned without its IP filter chain having allowed the client"
 			}
-		} else if s.routeCodes[f.Info.Uses[id]] == "403" {
-			den := false
-			for _, k := range chainKeys {
-				if st.Is(k, flow.False) {
-					den = true
-				}
-			}
-			if s.val(st, s.allow["server"]) == flow.False {
+		case "403":
+			_, den := s.chainPassed(st)
+			if s.allowed(st, "server") == flow.False {
 				den = true
 			}
 			if !den {
@@ -439,9 +459,9 @@ func c05Search(c *core.Ctx, s *searchInfo) {
 			}
 		}
 	}
-	if s.get != nil {
+	if len(s.gets) > 0 {
 		c.RequireCount("R-C05-2", "cached success-route exits", hits, 1)
-		c.Check(badHit == nil, "R-C05-2", s.cons+"|cached route re-checked through its chain", pos(c, s.get), sprintf("%d cached-success exits all passed chain.Allow (or have a nil chain)", hits), whyHit, witness(badHit)...)
+		c.Check(badHit == nil, "R-C05-2", s.cons+"|cached route re-checked through its chain", pos(c, s.gets[0]), sprintf("%d cached-success exits all passed chain.Allow (or have a nil chain)", hits), whyHit, witness(badHit)...)
 	}
 }
 
@@ -451,13 +471,12 @@ func c05NoDispatch(c *core.Ctx) {
 		return
 	}
 	f := s.f
-	codeKey := "eq:" + f.Render(s.routeVar) + ".code==0"
 	var bad *flow.State
 	n := 0
 	for _, d := range s.dispatch {
 		for _, st := range s.res.At[d] {
 			n++
-			if !st.Is(codeKey, flow.True) {
+			if s.codeZero(st) != flow.True {
 				bad = st
 			}
 		}
@@ -466,36 +485,60 @@ func c05NoDispatch(c *core.Ctx) {
 		sprintf("%d states at the dispatch calls all have route.code == 0", n), "a handler is invoked for a route with a non-zero status (a denied client reaches the pipeline)", witness(bad)...)
 }
 
+// c05IsInsert: Insert on a cidranger.Ranger.
+func c05IsInsert(f *flow.Func, call *ast.CallExpr) bool {
+	if methodName(call) != "Insert" {
+		return false
+	}
+	if sel, ok := ast.Unparen(call.Fun).(*ast.SelectorExpr); ok {
+		if tv, ok := f.Info.Types[sel.X]; ok && tv.Type != nil && strings.HasSuffix(tv.Type.String(), "cidranger.Ranger") {
+			return true
+		}
+	}
+	return false
+}
+
+// c05RangerBuilder returns the body that fills a ranger: a function literal of f, f itself, or a
+// same-package helper f calls.
+func c05RangerBuilder(f *flow.Func) *flow.Func {
+	has := func(body ast.Node) bool {
+		for _, call := range calls(body, false) {
+			if c05IsInsert(f, call) {
+				return true
+			}
+		}
+		return false
+	}
+	var lit *ast.FuncLit
+	ast.Inspect(f.Body, func(n ast.Node) bool {
+		if l, ok := n.(*ast.FuncLit); ok && lit == nil && has(l.Body) {
+			lit = l
+		}
+		return true
+	})
+	if lit != nil {
+		return f.Lit(lit)
+	}
+	for _, g := range reach(f, 2) {
+		if has(g.Body) {
+			return g
+		}
+	}
+	return f
+}
+
 func c05New(c *core.Ctx) {
 	f := fn(c, ipf, "", "New")
 	if f == nil {
 		return
 	}
 	cons := fname(ipf, "", "New")
-	// the closure building a ranger
-	var lit *ast.FuncLit
-	ast.Inspect(f.Body, func(n ast.Node) bool {
-		if l, ok := n.(*ast.FuncLit); ok && lit == nil {
-			for _, call := range calls(l.Body, false) {
-				if methodName(call) == "Insert" {
-					lit = l
-				}
-			}
-		}
-		return true
-	})
-	body := f
-	if lit != nil {
-		body = f.Lit(lit)
-	}
+	// the closure (or helper function) building a ranger
+	body := c05RangerBuilder(f)
 	var inserts []*ast.CallExpr
 	for _, call := range calls(body.Body, false) {
-		if methodName(call) == "Insert" {
-			if sel, ok := ast.Unparen(call.Fun).(*ast.SelectorExpr); ok {
-				if tv, ok := f.Info.Types[sel.X]; ok && strings.HasSuffix(tv.Type.String(), "cidranger.Ranger") {
-					inserts = append(inserts, call)
-				}
-			}
+		if c05IsInsert(f, call) {
+			inserts = append(inserts, call)
 		}
 	}
 	if !c.RequireCount("R-C05-5", "ranger.Insert call sites in ipfilter.New", len(inserts), 2) {
